@@ -39,6 +39,25 @@ var c36Names = []string{
 	14: "z.d.",                // shares d. only
 }
 
+// c36ChainBase is the first index of the chain names: index c36ChainBase+i is
+// the name of i+1 labels "l<i>.l<i-1>. ... .l0." — each chain name extends the
+// previous one by one leading label, so a compressing packer that sees them in
+// increasing order encodes name i as one label plus a pointer to name i-1, and
+// a decoder reaches the end of name i through a chain of i pointers.
+const c36ChainBase = 100
+
+// c36NameStr maps a name index of a case to the presentation name.
+func c36NameStr(i int) string {
+	if i < c36ChainBase {
+		return c36Names[i]
+	}
+	var sb strings.Builder
+	for j := i - c36ChainBase; j >= 0; j-- {
+		sb.WriteString("l" + strconv.Itoa(j) + ".")
+	}
+	return sb.String()
+}
+
 func c36MkName(s string) Name {
 	var n Name
 	if len(s) > len(n.Data) {
@@ -152,8 +171,8 @@ func c36Options(v int) []Option {
 // body builds a fresh ResourceBody (Pack mutates nothing in bodies, but the
 // cases must not share slices between executions anyway).
 func (b c36B) body() ResourceBody {
-	n1 := func() Name { return c36MkName(c36Names[b.N1]) }
-	n2 := func() Name { return c36MkName(c36Names[b.N2]) }
+	n1 := func() Name { return c36MkName(c36NameStr(b.N1)) }
+	n2 := func() Name { return c36MkName(c36NameStr(b.N2)) }
 	u16 := []uint16{0, 10, 65535, 256}
 	switch b.K {
 	case "A":
@@ -210,7 +229,7 @@ func (b c36B) body() ResourceBody {
 func (d c36Msg) message() Message {
 	m := Message{Header: d.H.header()}
 	for _, q := range d.Q {
-		m.Questions = append(m.Questions, Question{Name: c36MkName(c36Names[q.N]), Type: Type(q.T), Class: Class(q.C)})
+		m.Questions = append(m.Questions, Question{Name: c36MkName(c36NameStr(q.N)), Type: Type(q.T), Class: Class(q.C)})
 	}
 	prev := 0
 	for _, r := range d.R {
@@ -218,7 +237,7 @@ func (d c36Msg) message() Message {
 			panic("c36: sections out of order in case")
 		}
 		prev = r.Sec
-		res := Resource{Header: ResourceHeader{Name: c36MkName(c36Names[r.Owner]), Class: Class(r.Class), TTL: r.TTL}, Body: r.B.body()}
+		res := Resource{Header: ResourceHeader{Name: c36MkName(c36NameStr(r.Owner)), Class: Class(r.Class), TTL: r.TTL}, Body: r.B.body()}
 		switch r.Sec {
 		case 1:
 			m.Answers = append(m.Answers, res)
@@ -523,6 +542,7 @@ type c36Rd struct {
 	off int
 	// stats
 	pointers int
+	maxChain int // the largest number of pointers followed while decoding one name
 }
 
 func (d *c36Rd) u8() (byte, error) {
@@ -569,6 +589,7 @@ func (d *c36Rd) name() (string, error) {
 	cur := d.off
 	next := -1 // offset after the name in the enclosing record
 	wire := 1  // wire length of the expanded name (RFC 1035 §3.1: <= 255)
+	chain := 0
 	for {
 		if cur >= len(d.msg) {
 			return "", c36RefErr("name runs off the message at %d", cur)
@@ -614,6 +635,9 @@ func (d *c36Rd) name() (string, error) {
 				next = cur + 2
 			}
 			d.pointers++
+			if chain++; chain > d.maxChain {
+				d.maxChain = chain
+			}
 			cur = tgt
 		default:
 			return "", c36RefErr("reserved label type %#x at %d", c, cur)
@@ -801,8 +825,22 @@ func c36RefDecode(msg []byte) (string, []uint16, int, error) {
 }
 
 func c36RefDecode1(msg []byte) (string, []uint16, int, error) {
-	var lens []uint16
+	return c36RefDecode2(&c36Rd{msg: msg})
+}
+
+// c36RefMaxChain returns the longest pointer chain of any name of a message
+// the reference decoder accepts (-1 if it does not).
+func c36RefMaxChain(msg []byte) int {
 	d := &c36Rd{msg: msg}
+	if _, _, _, err := c36RefDecode2(d); err != nil {
+		return -1
+	}
+	return d.maxChain
+}
+
+func c36RefDecode2(d *c36Rd) (string, []uint16, int, error) {
+	var lens []uint16
+	msg := d.msg
 	var sb strings.Builder
 	id, err := d.u16()
 	if err != nil {
